@@ -524,13 +524,14 @@ func rulePoll(r *Run, rule string) {
 		}
 		var recvVar types.Object
 		got := false
-		for _, e := range p.Ev {
+		for ei, e := range p.Ev {
 			if e.Kind == EvSelect && e.Taken {
 				cc := e.Clause.(*ast.CommClause)
 				if cc.Comm == nil {
 					continue
 				}
-				if o := chanOwner(info, commRecv(cc.Comm)); o != "" {
+				// the channel as written, or (a local chosen beforehand) what it was assigned from on this path
+				if o := chanOwner(info, OriginOnPath(info, p, ei, commRecv(cc.Comm))); o != "" {
 					owners[o] = true
 					got = true
 					if as, ok := cc.Comm.(*ast.AssignStmt); ok && len(as.Lhs) >= 1 {
